@@ -237,6 +237,28 @@ func runC13(c *Ctx) {
 					}
 				}
 			}
+			// or: 'tn, err := wrapTyped(&v, Prototype); if err != nil { return nil, err }; return tn.Representation(), nil'
+			// — the helper wraps under its recover, the method only takes the representation of what it got
+			var midCall *ssa.Call
+			if !viaHelper {
+				for _, cs := range c.Calls(tn0.SSA, Any()) {
+					call, isCall := cs.In.(*ssa.Call)
+					callee := cs.In.Common().StaticCallee()
+					if !isCall || callee == nil || callee.Pkg != tn0.SSA.Pkg || len(callee.Blocks) == 0 || cs.Fn != tn0.SSA {
+						continue
+					}
+					obj, _ := callee.Object().(*types.Func)
+					hf := c.fnOf(obj)
+					if hf == nil || len(c.Calls(callee, Call("bindnode.Wrap"))) != 1 {
+						continue
+					}
+					for k, a := range cs.X.Args {
+						if _, m := Match(proto, a); m && k < len(callee.Params) {
+							tn, protoHere, viaHelper, midCall = hf, Op("param", callee.Params[k].Name()), true, call
+						}
+					}
+				}
+			}
 			wr := c.Calls(tn.SSA, Call("bindnode.Wrap"))
 			okWrap := len(wr) == 1 && viaHelper
 			if okWrap {
@@ -325,6 +347,47 @@ func runC13(c *Ctx) {
 					}
 				}
 			})
+			if midCall != nil {
+				// the helper returns the typed node; the method returns its representation (or nil with the helper's error)
+				okRepr, nVals = true, 0
+				for _, b := range tn0.SSA.Blocks {
+					ret, ok := b.Instrs[len(b.Instrs)-1].(*ssa.Return)
+					if !ok || len(ret.Results) != 2 {
+						continue
+					}
+					r0, r1 := c.RetX(ret, 0), c.RetX(ret, 1)
+					if r1.Op != "nil" {
+						// failure: the helper's own error, nothing else
+						if _, m := Match(Extract("1", Is(c.E(midCall))), r1); !m {
+							ownErr = c.pos(ret.Pos())
+						}
+						continue
+					}
+					nVals++
+					if _, m := Match(AnyCall("Representation", Extract("0", Is(c.E(midCall)))), r0); !m {
+						okRepr = false
+					}
+					if _, g := c.GuardedB(b, EqNil(Extract("1", Is(c.E(midCall)))), true); !g {
+						okRepr = false
+					}
+				}
+				// and what the helper hands back is the wrapped value itself
+				for _, b := range tn.SSA.Blocks {
+					if ret, ok := b.Instrs[len(b.Instrs)-1].(*ssa.Return); ok && len(ret.Results) == 2 {
+						for _, l := range c.Leaves(c.RetX(ret, 0), ret) {
+							ls := strip(l)
+							if ls == nil || ls.Op == "nil" || (ls.Op == "const" && strings.HasPrefix(ls.Name, "zero:")) {
+								continue
+							}
+							if _, m := Match(Call("bindnode.Wrap"), l); !m {
+								if _, isVar := ls.V.(*ssa.Alloc); !isVar {
+									okRepr = false
+								}
+							}
+						}
+					}
+				}
+			}
 			c.Check(okRepr && nVals > 0, "C13.U4-tonode-total", tn0.Name+" › representation-level node", tn.SSA.Pos(), "the node returned is bindnode.Wrap(…).Representation()", "ToNode hands out something other than the representation of the wrapped value (e.g. the type-level node): absent optional fields are then encoded as explicit nulls and the block no longer decodes")
 			c.Check(okWrap && rec && deferred, "C13.U4-tonode-total", tn0.Name, tn.SSA.Pos(), "wraps with "+t.proto+".Type() under a deferred recover that turns a panic into the returned error", "ToNode does not wrap with its own prototype's type or lets bindnode panics escape")
 		}
